@@ -252,6 +252,25 @@ def bounded_hof(tier, seed):
         ('let $f := function($a, $b) { $a - $b }, $g := $f(?, 1) return ($f(10, 3), $g(10), function-arity($f), function-arity($g))', [7, 9, 2, 1]),
         ('let $f := substring#3, $g := $f(?, 2, ?) return ($f("hello", 1, 2), $g("hello", 3), function-arity($f))', ['he', 'ell', 3]),
         ('let $f := concat#3, $g := $f("a", ?, "c") return ($g("b"), $f("x", "y", "z"), $g("q"))', ['abc', 'xyz', 'aqc']),
+        # partial application of a partial application; fixed arguments are evaluated when the partial application is evaluated
+        ('let $f := concat(?, ?, ?), $g := $f("a", ?, ?) return $g("b", "c")', 'abc'),
+        ('let $f := function($x, $y, $z) { $x || $y || $z }, $g := $f(?, "B", ?), $h := $g("a", ?) return $h("c")', 'aBc'),
+        ('let $a := 1, $f := concat($a, ?), $a := 2 return $f("x")', '1x'),
+        ('let $f := function($x, $y) { $x + $y } return (let $a := 5 return $f($a, ?))(1)', 6),
+        ('let $x := 100, $f := function($x, $y) { $x + $y }, $g := $f(?, $x) return $g(1)', 101),
+        # the function argument of a higher-order function is any expression that evaluates to a function item
+        ('for-each((-1, -2), head((abs#1, string#1)))', [1, 2]), ('filter((1, 2, 3), head((function($x) { $x > 1 }, 1)))', [2, 3]),
+        ("for-each((-1, -2), function-lookup(xs:QName('fn:abs'), 1))", [1, 2]), ('fold-left((1, 2, 3), 0, head((function($a, $b) { $a + $b })))', 6),
+        ("for-each(('x', 'y'), concat('a', ?))", ['ax', 'ay']),
+        # constructor functions as function items
+        ("xs:boolean#1('false')", False), ("for-each(('0', 'false', 'true', '1'), xs:boolean#1)", [False, False, True, True]), ("xs:string#1(12)", '12'),
+        ("string(xs:dateTime#1('2000-01-01T00:00:00'))", '2000-01-01T00:00:00'), ("function-lookup(xs:QName('xs:boolean'), 1)('0')", False),
+        ("for-each(('1', '2'), xs:integer#1)", [1, 2]), ("let $f := xs:double#1 return $f('1e1')", 10.0),
+        # $zero of a fold is a sequence; order of fn:sort on booleans and NaN
+        ('fold-left(1 to 3, (1, 2), function($a, $b) { ($a, $b) })', [1, 2, 1, 2, 3]), ('fold-right(1 to 3, (1, 2), function($a, $b) { ($a, $b) })', [1, 2, 3, 1, 2]),
+        ('fold-left((), (7, 8), function($a, $b) { $a })', [7, 8]), ('sort((true(), false(), true()))', [False, True, True]),
+        ("sort(('true', '0', '1', 'false'), (), xs:boolean#1)", ['0', 'false', 'true', '1']),
+        ("string-join(for $v in sort((1, xs:double('NaN'), 0)) return string($v), ' ')", 'NaN 0 1'), ("string-join(for $v in sort((xs:double('NaN'), 2, 1)) return string($v), ' ')", 'NaN 1 2'),
     ]
     for expr, want in progs:
         check(expr, want, ('closure', expr[:25]))
